@@ -95,7 +95,23 @@ impl Duration {
 /// std::iter::zip of two vectors, materialized: the pairs of equal indices, in order, up to the shorter one (assumed std behaviour)
 #[verifier::external_body] pub fn zip(l: Vec<CelValue>, r: Vec<CelValue>) -> (o: Vec<(CelValue, CelValue)>)
     ensures o@.len() == (if l@.len() <= r@.len() { l@.len() } else { r@.len() }), forall|i: int| 0 <= i < o@.len() ==> o@[i] == (l@[i], r@[i]) { unimplemented!() }
-#[verifier::external_body] pub fn map_eq(l: HashMap<String, CelValue>, r: HashMap<String, CelValue>) -> (o: CelValue) ensures o is Bool { unimplemented!() }
+// ---- HashMap<String, CelValue> operations of the map-equality arm (assumed std behaviour) -------------------------------------------
+#[verifier::external_body] pub fn map_clone(m: &HashMap<String, CelValue>) -> (o: HashMap<String, CelValue>) ensures o@ == m@ { unimplemented!() }
+/// HashMap::into_iter, materialized: every entry exactly once, in an unspecified order
+#[verifier::external_body] pub fn map_entries(m: HashMap<String, CelValue>) -> (o: Vec<(String, CelValue)>)
+    ensures entries_of(m@, o@) { unimplemented!() }
+pub open spec fn entries_of(m: Map<String, CelValue>, es: Seq<(String, CelValue)>) -> bool {
+    &&& forall|j: int| 0 <= j < es.len() ==> m.contains_key((#[trigger] es[j]).0) && m[es[j].0] == es[j].1
+    &&& forall|i: int, j: int| 0 <= i < j < es.len() ==> (#[trigger] es[i]).0 != (#[trigger] es[j]).0
+    &&& forall|k: String| #[trigger] m.contains_key(k) ==> exists|j: int| 0 <= j < es.len() && (#[trigger] es[j]).0 == k
+}
+#[verifier::external_body] pub fn map_remove(m: &mut HashMap<String, CelValue>, k: &String) -> (o: Option<CelValue>)
+    ensures o == (if old(m)@.contains_key(*k) { Some(old(m)@[*k]) } else { None::<CelValue> }), final(m)@ == old(m)@.remove(*k) { unimplemented!() }
+#[verifier::external_body] pub fn map_get_s<'a>(m: &'a HashMap<String, CelValue>, k: &String) -> (o: Option<&'a CelValue>)
+    ensures (match o { Some(v) => m@.contains_key(*k) && *v == m@[*k], None => !m@.contains_key(*k) }) { unimplemented!() }
+#[verifier::external_body] pub fn map_has(m: &HashMap<String, CelValue>, k: &String) -> (o: bool) ensures o == m@.contains_key(*k) { unimplemented!() }
+#[verifier::external_body] pub fn map_len(m: &HashMap<String, CelValue>) -> (o: usize) ensures o == m@.len() { unimplemented!() }
+#[verifier::external_body] pub fn map_is_empty(m: &HashMap<String, CelValue>) -> (o: bool) ensures o == (forall|k: String| !m@.contains_key(k)) { unimplemented!() }
 pub assume_specification[ String::len ](s: &String) -> (r: usize) ensures r >= s@.len(), (r == 0) == (s@.len() == 0);   // UTF-8 byte length
 '''
 
@@ -226,6 +242,18 @@ pub open spec fn list_eq_ok(x: Seq<CelValue>, y: Seq<CelValue>, r: CelValue, neg
     && ((x.len() == y.len() && forall|i: int| 0 <= i < x.len() ==> (#[trigger] elem_exact(x[i], y[i])) is Some)
         ==> r == CelValue::Bool((forall|i: int| 0 <= i < x.len() ==> (#[trigger] elem_exact(x[i], y[i])) == Some(true)) != negate))
 }
+/// the keys seen by the first i entries
+pub open spec fn seen(es: Seq<(String, CelValue)>, i: int, k: String) -> bool { exists|j: int| 0 <= j < i && (#[trigger] es[j]).0 == k }
+pub open spec fn same_keys(x: Map<String, CelValue>, y: Map<String, CelValue>) -> bool { forall|k: String| x.contains_key(k) <==> y.contains_key(k) }
+pub open spec fn pair_exact(x: Map<String, CelValue>, y: Map<String, CelValue>, k: String) -> Option<bool> { elem_exact(x[k], y[k]) }
+/// map equality: always a bool; maps with different key sets are never equal; maps with the same keys whose value pairs are all decided
+/// by the scalar rules are equal exactly when every pair is
+pub open spec fn map_eq_ok(x: Map<String, CelValue>, y: Map<String, CelValue>, r: CelValue, negate: bool) -> bool {
+    r is Bool
+    && (!same_keys(x, y) ==> r == CelValue::Bool(negate))
+    && ((same_keys(x, y) && forall|k: String| x.contains_key(k) ==> (#[trigger] pair_exact(x, y, k)) is Some)
+        ==> r == CelValue::Bool((forall|k: String| x.contains_key(k) ==> (#[trigger] pair_exact(x, y, k)) == Some(true)) != negate))
+}
 pub open spec fn scalar_eq_ok(a: CelValue, b: CelValue, r: CelValue, negate: bool) -> bool {
     if integral_pair(a, b) { r == CelValue::Bool((int_val(a) == int_val(b)) != negate) }
     else if double_pair(a, b) { r is Bool }
@@ -237,7 +265,7 @@ pub open spec fn scalar_eq_ok(a: CelValue, b: CelValue, r: CelValue, negate: boo
         (CelValue::Type(x), CelValue::Type(y)) => r == CelValue::Bool((x@ == y@) != negate),
         (CelValue::Null, CelValue::Null) => r == CelValue::Bool(!negate),
         (CelValue::List(x), CelValue::List(y)) => list_eq_ok(x@, y@, r, negate),
-        (CelValue::Map(_), CelValue::Map(_)) => r is Bool || r is Err,
+        (CelValue::Map(x), CelValue::Map(y)) => map_eq_ok(x@, y@, r, negate),
         (CelValue::Dyn(_), _) => true,
         (_, CelValue::Dyn(_)) => true,
         _ => r == CelValue::Bool(negate),
@@ -265,15 +293,31 @@ pub open spec fn scalar_eq_ok(a: CelValue, b: CelValue, r: CelValue, negate: boo
                 '(CelValue::Bytes(l), CelValue::Bytes(r))': [('l == r', 'bytes_eq(&l, &r)', R2C)],
                 '(CelValue::TimeStamp(l), CelValue::TimeStamp(r))': [('l == r', 'ts_eq(&l, &r)', R2C, 'opt'), ('r == l', 'ts_eq(&r, &l)', R2C, 'opt')],
                 '(CelValue::Duration(l), CelValue::Duration(r))': [('l == r', 'dur_eq(&l, &r)', R2C, 'opt'), ('r == l', 'dur_eq(&r, &l)', R2C, 'opt')],
+                '(CelValue::Map(l), CelValue::Map(r))': [('l.into_iter()', 'ents', 'R2: HashMap::into_iter -> the materialized entry list `ents`, bound at the start of the arm by `let ents = map_entries(l);` (assumed: every entry once, unspecified order)'),
+                                                         ('r.clone()', 'map_clone(&r)', 'R2: HashMap<String, _> operation without a usable vstd spec -> trampoline with the assumed std behaviour', 'opt'), ('r.remove(&k)', 'map_remove(&mut r, &k)', 'R2: HashMap<String, _> operation without a usable vstd spec -> trampoline with the assumed std behaviour', 'opt'), ('r.is_empty()', 'map_is_empty(&r)', 'R2: HashMap<String, _> operation without a usable vstd spec -> trampoline with the assumed std behaviour', 'opt'),
+                                                         ('r.get(&k)', 'map_get_s(&r, &k)', 'R2: HashMap<String, _> operation without a usable vstd spec -> trampoline with the assumed std behaviour', 'opt'), ('r.contains_key(&k)', 'map_has(&r, &k)', 'R2: HashMap<String, _> operation without a usable vstd spec -> trampoline with the assumed std behaviour', 'opt'), ('r.len()', 'map_len(&r)', 'R2: HashMap<String, _> operation without a usable vstd spec -> trampoline with the assumed std behaviour', 'opt')],
             },
-            arm_begin={'CelValue::Err(err)': 'proof { let k = it.index@ as int; assert((v1, v2) == (lx[k], ry[k])); assert(elem_exact(lx[k], ry[k]) is None); }'},
+            arm_begin={'(CelValue::Map(l), CelValue::Map(r))': 'let ghost mx = l@; let ghost my = r@; let ents = map_entries(l); let ghost es_all = ents@;',
+                       'CelValue::Err(err)': 'proof { let k = it.index@ as int; assert((v1, v2) == (lx[k], ry[k])); assert(elem_exact(lx[k], ry[k]) is None); }'},
             before={'for (v1, v2) in zip(l, r)': 'let ghost lx = l@; let ghost ry = r@;',
+                    
+                    
+                    
+                    
+                    
                     ('return CelValue::false_();', 0): 'proof { let k = it.index@ as int; assert((v1, v2) == (lx[k], ry[k])); assert(elem_exact(lx[k], ry[k]) is Some ==> elem_exact(lx[k], ry[k]) == Some(false)); }'},
-            loops={0: dict(header='for (v1, v2) in zip(l, r)', ghost='it', invariant=[
+            loops={1: dict(header='for (k, v1) in l.into_iter()', ghost='it3', invariant=[
+                ('the_operands_are_these_maps', '!integral_pair(lhs_val, rhs_val) && (!(rhs_val is Dyn) ==> lhs_val is Map && rhs_val is Map && lhs_val->Map_0@ == mx && rhs_val->Map_0@ == my)'),
+                ('every_entry_once', 'it3.seq() == es_all && entries_of(mx, es_all)'),
+                ('what_is_left_of_the_right_map', 'forall|q: String| #[trigger] r@.contains_key(q) ==> my.contains_key(q) && r@[q] == my[q] && (forall|j: int| 0 <= j < it3.index@ ==> (#[trigger] es_all[j]).0 != q)'),
+                ('nothing_else_was_removed', 'forall|q: String| #[trigger] my.contains_key(q) ==> r@.contains_key(q) || exists|j: int| 0 <= j < it3.index@ && (#[trigger] es_all[j]).0 == q'),
+                ('seen_keys_are_on_both_sides_with_equal_values', 'forall|j: int| 0 <= j < it3.index@ ==> my.contains_key((#[trigger] es_all[j]).0) && (pair_exact(mx, my, es_all[j].0) is Some ==> pair_exact(mx, my, es_all[j].0) == Some(true))', ('C04', 'C01'))],
+                pre='let ghost i0 = it3.index@ as int; let ghost es = es_all; let ghost r0 = r@; proof { assert((k, v1) == es[i0]); assert(forall|j: int| 0 <= j < i0 ==> (#[trigger] es[j]).0 != es[i0].0); assert(pair_exact(mx, my, k) == elem_exact(mx[k], my[k])); }',
+),
+                   0: dict(header='for (v1, v2) in zip(l, r)', ghost='it', invariant=[
                 ('the_operands_are_these_lists', '!integral_pair(lhs_val, rhs_val) && (!(rhs_val is Dyn) ==> lhs_val is List && rhs_val is List && lhs_val->List_0@ == lx && rhs_val->List_0@ == ry)'),
                 ('same_positions', 'lx.len() == ry.len() && it.seq().len() == lx.len() && forall|j: int| 0 <= j < lx.len() ==> it.seq()[j] == (lx[j], ry[j])'),
                 ('equal_so_far', 'forall|j: int| 0 <= j < it.index@ ==> ((#[trigger] elem_exact(lx[j], ry[j])) is Some ==> elem_exact(lx[j], ry[j]) == Some(true))', ('C04', 'C01'))])},
-            arm_replace={'(CelValue::Map(l), CelValue::Map(r))': ('{ map_eq(l, r) }', 'HashMap<String,_>::into_iter / remove have no Verus support; map equality is NOT verified')},
             props=('C04', 'C01')),
     }, others='stub', skip=('any_ref',))
     U.extract(C.CV, 'impl Not for CelValue', fns={'not': A(ret='r', ensures=[
